@@ -268,7 +268,11 @@ Read(o) ==
   /\ UNCHANGED <<frozen, costNode, implicitNoErr, status, cons, pidx, fixed, limited, dataSet, didFit, ownSrc>>
 
 (* rejected calls: nothing may change *)
-RejectKinds == {"SetParamUnknown", "FixUnknown", "LimitUnknown", "DisableUnknown", "AddConstraintUnknown"}
+RejectKinds == {"SetParamUnknown", "FixUnknown", "LimitUnknown", "DisableUnknown", "AddConstraintUnknown",
+                "ConstraintNonSymmetric", "ConstraintWrongShape", "ConstraintCorDiagonal", "ConstraintLengthMismatch",
+                "SetAllParamsWrongLength", "LimitNoBounds", "AddSourceUnknownAxis"}
+                \cup (IF FitType = "hist" THEN {"SetDataPoissonNegative", "SetDataPoissonFractional", "SetDataWrongType"} ELSE {})
+                \cup (IF FitType = "xy" THEN {"SetDataWrongType"} ELSE {})
 Rejected(k) ==
   /\ Bounded("Rejected") /\ "rejects" \notin Off /\ k \in RejectKinds
   /\ act' = [name |-> k] /\ obs' = [kind |-> "reject"]
